@@ -23,6 +23,10 @@ import shutil
 from simkit.core import Violation
 from simkit.opmachine import OpMachine, World
 
+WIN_SCRATCH = 0x100000
+WIN_COMPONENTS = ["..", "..", "a.txt", "d", "c:", "file_sb", "secret.txt", ".. ", "x", ".", "f.txt", "outside", "etc", "passwd"]
+WIN_ACCESS = [0x80000000, 0xC0000000, 0x40000000, 1]
+WIN_FOPEN_MODES = ["r", "rb", "wb+", "wb", "wt"]
 COMPONENTS = ["a.txt", "d", "f.txt", "l", "dl", "..", "..", ".", "", "x", "etc", ".. ", "...", " .."]
 
 
@@ -52,7 +56,7 @@ class OsProxy(object):
 
     def __getattr__(self, name):
         real = getattr(os, name)
-        if name in ("open", "listdir", "stat"):
+        if name in ("open", "listdir", "stat", "access"):
             def follow(p, *a, **k):
                 self._rec.append(("follow", "os." + name, p))
                 return real(p, *a, **k)
@@ -73,6 +77,7 @@ class C46(OpMachine):
             "symlinks and directories inside the base: final-component and directory links, chains, relative targets with '..', "
             "absolute targets) and Windows/POSIX mapper calls; non-trivial = >=3 ops; distinct = distinct event-log digest")
     real_components = ["miasm.os_dep.linux.environment FileSystem / LinuxEnvironment_x86_64 (open_, stat, lstat, readlink ...)",
+                       "miasm.os_dep.win_api_x86_32 kernel32_CreateFileA/W, GetFileSize, GetFileSizeEx, ReadFile, msvcrt fopen/_wfopen, shlwapi_PathIsDirectoryW (called with arguments on an x86_32 Jitter's stack)",
                        "miasm.os_dep.common windows_to_sbpath / unix_to_sbpath", "the host file system (a private scratch tree)"]
     stub_components = ["recording proxy for the `os` module as seen by environment.py (delegates to the real os)",
                        "adversary actor"]
@@ -84,7 +89,8 @@ class C46(OpMachine):
     expected_probes = ["resolve", "open", "exists", "readlink", "stat", "lstat", "adv_link_file", "adv_link_dir",
                        "adv_link_abs_outside", "adv_link_rel_dotdot", "adv_chain", "adv_long_chain", "adv_remove", "guest_dotdot",
                        "guest_bytes_path", "through_dir_link", "final_link", "passthrough_hit", "winpath", "unixpath",
-                       "data_read_back"]
+                       "data_read_back", "win_CreateFileA", "win_CreateFileW", "win_fopen", "win__wfopen", "win_PathIsDirectoryW",
+                       "win_handle_followup"]
 
     def setup(self):
         from simkit import build
@@ -93,6 +99,18 @@ class C46(OpMachine):
         self.environment = environment
         self.common = common
         self.scratch_root = build.private_tmp()
+        # one x86_32 jitter (python backend) carries the arguments of the emulated Windows API stubs
+        build.activate()
+        from miasm.analysis.machine import Machine
+        from miasm.core.locationdb import LocationDB
+        from miasm.jitter.csts import PAGE_READ, PAGE_WRITE
+        from miasm.os_dep import win_api_x86_32
+        self.winapi = win_api_x86_32
+        j = Machine("x86_32").jitter(LocationDB(), "python")
+        j.init_stack()
+        j.vm.add_memory_page(WIN_SCRATCH, PAGE_READ | PAGE_WRITE, b"\x00" * 0x4000, "scratch")
+        self.win_jitter = j
+        self.win_esp = j.cpu.ESP
 
     # ---- generation -------------------------------------------------------------
     def _guest_path(self, rng, steer):
@@ -108,7 +126,7 @@ class C46(OpMachine):
         return p
 
     def gen(self, rng, steer):
-        cfg = {"passthrough": rng.random() < 0.3, "steer": steer}
+        cfg = {"passthrough": rng.random() < 0.3, "steer": steer, "win_api": rng.random() < 0.35}
         actions = []
         for _ in range(rng.randint(1, 25)):
             r = rng.random()
@@ -119,6 +137,14 @@ class C46(OpMachine):
                 # steered runs keep only links that stay inside by themselves
                 kind = rng.choice(["file", "remove"])
                 actions.append(["adv", kind, rng.choice(["l", "x"]), rng.randrange(4)])
+            elif r < 0.36 and cfg["win_api"]:
+                comps = [rng.choice(WIN_COMPONENTS) for _ in range(rng.randint(1, 4))]
+                if steer:
+                    comps = [c for c in comps if ".." not in c] or ["a.txt"]
+                name = rng.choice(["\\", "\\", "/"]).join(comps)
+                form = rng.randrange(5)       # 0 relative, 1 drive, 2 leading separator, 3 host-absolute, 4 relative
+                api = rng.choice(["CreateFileA", "CreateFileW", "CreateFileA", "fopen", "_wfopen", "PathIsDirectoryW"])
+                actions.append(["win", api, name, form, rng.randrange(4), rng.randint(1, 5), rng.randrange(5)])
             elif r < 0.4:
                 comps = [rng.choice(["..", "..", "a", "windows", "c:", ".", "", "x.txt", ".. ", " ..", "...", "a ", ". ", "..\t",
                                      "..", "A..", "%2e%2e"]) for _ in range(rng.randint(1, 4))]
@@ -181,10 +207,37 @@ class C46(OpMachine):
             w.fs.passthrough.append(w.passthrough)
         w.real_base = os.path.realpath(w.base)
         w.links = {}
+        w.win = bool(cfg.get("win_api"))
+        if w.win:
+            # the Windows environment's sandbox base is 'file_sb' under the current directory (= <scratch>/outside,
+            # next to the canary files)
+            w.win_base = os.path.join(w.outside, "file_sb")
+            for rel in ("a.txt", "d/f.txt", "c:/a.txt", "secret.txt", "x"):
+                os.makedirs(os.path.dirname(os.path.join(w.win_base, rel)), exist_ok=True)
+                with open(os.path.join(w.win_base, rel), "w") as fd:
+                    fd.write("SB:" + rel)
+            w.win_real_base = os.path.realpath(w.win_base)
+            rec = w.rec
+
+            def rec_open(path, *a, **k):
+                rec.append(("follow", "open", path))
+                return open(path, *a, **k)
+            self.winapi.open = rec_open
+            self.winapi.os = w.proxy
+            self.winapi.winobjs.handle_pool = self.winapi.handle_generator()
         return w
 
     def teardown(self, w):
         self.environment.os = os
+        if getattr(w, "win", False):
+            self.winapi.os = os
+            self.winapi.__dict__.pop("open", None)
+            for wh in list(self.winapi.winobjs.handle_pool.all_handles.values()):
+                if hasattr(wh.info, "close"):
+                    try:
+                        wh.info.close()
+                    except (OSError, ValueError):
+                        pass
         try:
             os.chdir(w.cwd_before)
         except OSError:
@@ -247,6 +300,8 @@ class C46(OpMachine):
         k = a[0]
         if k == "adv":
             return self._adversary(w, a, log)
+        if k == "win":
+            return self._win(w, a, log)
         if k in ("winpath", "unixpath"):
             fn = self.common.windows_to_sbpath if k == "winpath" else self.common.unix_to_sbpath
             path = a[1]
@@ -318,6 +373,87 @@ class C46(OpMachine):
                 if b"CANARY" in data and not (w.passthrough and data == b"CANARY:secret.txt"):
                     facts["via"] = cause
                     raise Violation("C46/canary-read", "guest open(%r) reads host bytes %r" % (guest, data), facts)
+
+    # ---- the emulated Windows API ------------------------------------------------------
+    def _win_call(self, func, *args):
+        j = self.win_jitter
+        j.cpu.ESP = self.win_esp
+        for arg in reversed(args):
+            j.push_uint32_t(arg & 0xFFFFFFFF)
+        j.push_uint32_t(0x1337beef)
+        func(j)
+        return j.cpu.EAX
+
+    def _win_check(self, w, what, guest, facts):
+        for kind, func, host_path in list(w.rec):
+            if isinstance(host_path, bytes):
+                host_path = host_path.decode()
+            if not isinstance(host_path, str):
+                continue
+            real = os.path.realpath(os.path.join(os.getcwd(), host_path))
+            if not (real == w.win_real_base or real.startswith(w.win_real_base + os.sep)):
+                facts["seam"] = func
+                facts["via"] = "windows_api"
+                raise Violation("C46/escape-windows_api", "%s on guest name %r: %s(%r) reaches %s, outside the sandbox base file_sb"
+                                % (what, guest, func, host_path.replace(w.root, "<scratch>"), real.replace(w.root, "<scratch>")), facts)
+        del w.rec[:]
+
+    def _win(self, w, a, log):
+        if not getattr(w, "win", False):
+            return
+        _, api, name, form, acc, disp, mode = a
+        if form == 1:
+            name = "c:\\" + name
+        elif form == 2:
+            name = "\\" + name
+        elif form == 3:
+            name = os.path.join(w.outside, name.replace("\\", "/"))
+        shown = name.replace(w.root, "<scratch>")
+        api_fn = self.winapi
+        j = self.win_jitter
+        wide = api in ("CreateFileW", "_wfopen", "PathIsDirectoryW")
+        try:
+            raw = name.encode("utf-16le") + b"\x00\x00" if wide else name.encode("latin-1") + b"\x00"
+        except UnicodeEncodeError:
+            return
+        j.vm.set_mem(WIN_SCRATCH, raw[:0x800])
+        facts = {"op": "win", "api": api}
+        w.probe("win_" + api)
+        del w.rec[:]
+        handle = exc = None
+        try:
+            if api.startswith("CreateFile"):
+                handle = self._win_call(getattr(api_fn, "kernel32_" + api), WIN_SCRATCH, WIN_ACCESS[acc], 0, 0, disp, 0x80, 0)
+            elif api in ("fopen", "_wfopen"):
+                m = WIN_FOPEN_MODES[mode]
+                j.vm.set_mem(WIN_SCRATCH + 0x1000, m.encode("utf-16le") + b"\x00\x00" if wide else m.encode() + b"\x00")
+                self._win_call(getattr(api_fn, "msvcrt_" + api), WIN_SCRATCH, WIN_SCRATCH + 0x1000)
+            else:
+                self._win_call(api_fn.shlwapi_PathIsDirectoryW, WIN_SCRATCH)
+        except (NotImplementedError, ValueError, OSError, KeyError, AssertionError, RuntimeError) as e:
+            exc = type(e).__name__
+        log.add("win", api, repr(shown), acc, disp, mode, "->", "handle" if handle not in (None, 0xFFFFFFFF) else handle, exc)
+        self._win_check(w, api, shown, facts)
+        # follow-up calls on the returned handle reopen the file by the name stored with the handle
+        pool = api_fn.winobjs.handle_pool
+        if api.startswith("CreateFile") and exc is None and handle in pool:
+            w.probe("win_handle_followup")
+            for follow in ("GetFileSize", "GetFileSizeEx", "ReadFile"):
+                try:
+                    if follow == "GetFileSize":
+                        self._win_call(api_fn.kernel32_GetFileSize, handle, 0)
+                    elif follow == "GetFileSizeEx":
+                        self._win_call(api_fn.kernel32_GetFileSizeEx, handle, WIN_SCRATCH + 0x2000)
+                    elif WIN_ACCESS[acc] & 0x80000000 and hasattr(pool[handle].info, "read"):
+                        self._win_call(api_fn.kernel32_ReadFile, handle, WIN_SCRATCH + 0x3000, 0x40, WIN_SCRATCH + 0x2000, 0)
+                        data = j.vm.get_mem(WIN_SCRATCH + 0x3000, 0x40)
+                        if b"CANARY" in data:
+                            raise Violation("C46/canary-read", "ReadFile after %s(%r) reads host bytes %r" % (api, shown, data[:24]),
+                                            dict(facts, via="windows_api"))
+                except (NotImplementedError, ValueError, OSError, KeyError, AssertionError, RuntimeError, TypeError) as e:
+                    log.add(" followup", follow, type(e).__name__)
+                self._win_check(w, "%s after %s" % (follow, api), shown, facts)
+            j.vm.set_mem(WIN_SCRATCH + 0x3000, b"\x00" * 0x40)
 
     def _adversary(self, w, a, log):
         _, kind, where, n = a
